@@ -2332,4 +2332,159 @@ theorem segPoly_min_convex (poly : List Vec) (C : ConvexPoly poly) (tolP tolS : 
           rw [hH 0, hH mu]
           nlinarith [mul_nonneg mu0 (mul_nonneg mu0 hsq.le), mul_nonneg mu0 had.le]
 
+/-! ### 1-norm and `pointset` -/
+
+theorem absR_neg (x : Rat) : absR (-x) = absR x := by
+  unfold absR; split_ifs <;> linarith
+
+theorem norm1_nonneg (v : Vec) : 0 ≤ norm1 v := by
+  induction v with
+  | nil => simp [norm1]
+  | cons x xs ih => simp only [norm1]; linarith [absR_nonneg x]
+
+theorem ptPt1_symm (p q : Vec) : ptPt1 p q = ptPt1 q p := by
+  unfold ptPt1
+  induction p generalizing q with
+  | nil => simp [norm1]
+  | cons x xs ih => cases q with
+    | nil => simp [norm1]
+    | cons y ys =>
+      simp only [vsub_cons, norm1, ih ys]
+      rw [← absR_neg (x - y)]; congr 2; ring
+
+theorem ptPt1_zero (p q : Vec) (h : p.length = q.length) : ptPt1 p q = 0 ↔ p = q := by
+  unfold ptPt1
+  induction p generalizing q with
+  | nil => cases q with
+    | nil => simp [norm1]
+    | cons y ys => simp at h
+  | cons x xs ih => cases q with
+    | nil => simp at h
+    | cons y ys =>
+      simp at h
+      simp only [vsub_cons, norm1]
+      constructor
+      · intro h0
+        have h1 := absR_nonneg (x - y)
+        have h2 := norm1_nonneg (vsub xs ys)
+        have hx : x - y = 0 := absR_eq_zero (by linarith)
+        have := (ih ys h).mp (by linarith)
+        rw [this]
+        have : x = y := by linarith
+        rw [this]
+      · intro he
+        injection he with h1 h2
+        rw [h1, (ih ys h).mpr h2]
+        simp [absR]
+
+theorem maxList_nonneg (l : List Rat) : 0 ≤ maxList l := by
+  induction l with
+  | nil => simp [maxList]
+  | cons x xs ih => simp only [maxList]; split_ifs <;> linarith
+
+theorem le_maxList (l : List Rat) (x : Rat) (hx : x ∈ l) : x ≤ maxList l := by
+  induction l with
+  | nil => simp at hx
+  | cons y ys ih =>
+    simp only [maxList]
+    rcases List.mem_cons.mp hx with rfl | h
+    · split_ifs <;> linarith
+    · have := ih h
+      split_ifs <;> linarith
+
+theorem maxList_mem (l : List Rat) (h : l ≠ []) (hpos : ∀ x ∈ l, 0 ≤ x) : maxList l ∈ l := by
+  induction l with
+  | nil => exact absurd rfl h
+  | cons y ys ih =>
+    simp only [maxList]
+    split_ifs with hlt
+    · simp
+    · cases ys with
+      | nil =>
+        simp only [maxList] at hlt ⊢
+        have := hpos y (by simp)
+        have : y = 0 := by linarith
+        simp [this]
+      | cons z zs =>
+        exact List.mem_cons_of_mem _ (ih (by simp) (fun x hx => hpos x (List.mem_cons_of_mem _ hx)))
+
+/-! ### where the returned point of `segPoly` lies -/
+
+theorem crossPoint_some (tolP : Rat) (s e : Vec) (poly : List Vec) (x0 : Vec) (hse : s.length = e.length)
+    (hc : (centroid poly).length = s.length) (hx : crossPoint tolP s e poly = some x0) :
+    ∃ t : Rat, 0 ≤ t ∧ t ≤ 1 ∧ x0 = along s e t ∧ dot (vsub x0 (centroid poly)) (normal poly) = 0 ∧
+      inPoly poly (normal poly) (projPlane (centroid poly) (normal poly) x0) = true := by
+  unfold crossPoint at hx
+  simp only [] at hx
+  cases hp : crossParam tolP (nsq (normal poly)) (dot (vsub s (centroid poly)) (normal poly))
+      (dot (vsub e (centroid poly)) (normal poly)) with
+  | none => rw [hp] at hx; simp at hx
+  | some t =>
+    rw [hp] at hx
+    simp only [] at hx
+    split_ifs at hx with hacc
+    simp only [Option.some.injEq] at hx
+    unfold crossParam at hp
+    split_ifs at hp with hnz hr
+    simp only [Option.some.injEq] at hp
+    refine ⟨t, by rw [← hp]; exact hr.1, by rw [← hp]; exact hr.2, hx.symm, ?_, by rw [← hx]; exact hacc⟩
+    rw [← hx, along_height _ _ _ _ _ hse hc, ← hp]
+    have hdz : dot (vsub e (centroid poly)) (normal poly) - dot (vsub s (centroid poly)) (normal poly) ≠ 0 := by
+      intro h0
+      rw [h0] at hnz
+      have : 0 ≤ tolP * tolP * nsq (normal poly) := mul_nonneg (mul_self_nonneg _) (nsq_nonneg _)
+      simp at hnz
+      linarith
+    field_simp
+    ring
+
+theorem segPolyGeneral_cp (tolS : Rat) (s e : Vec) (poly : List Vec) :
+    ((segPolyGeneral tolS s e poly).cp = (ptPoly s poly).cp ∧ (segPolyGeneral tolS s e poly).d2 = (ptPoly s poly).d2) ∨
+    ((segPolyGeneral tolS s e poly).cp = (ptPoly e poly).cp ∧ (segPolyGeneral tolS s e poly).d2 = (ptPoly e poly).d2) ∨
+    ∃ g ∈ edges poly, (segPolyGeneral tolS s e poly).cp = (segSeg tolS s e g.1 g.2).cp1 ∧
+      (segPolyGeneral tolS s e poly).d2 = (segSeg tolS s e g.1 g.2).d2 := by
+  unfold segPolyGeneral
+  simp only []
+  cases hm : minSegSeg tolS s e (edges poly) with
+  | none =>
+    simp only []
+    split_ifs
+    · exact Or.inr (Or.inl ⟨rfl, rfl⟩)
+    · exact Or.inl ⟨rfl, rfl⟩
+  | some o =>
+    obtain ⟨_, g, hg, m2⟩ := minSegSeg_spec _ _ _ _ _ hm
+    simp only []
+    split_ifs
+    · exact Or.inr (Or.inr ⟨g, hg, by rw [m2], by rw [m2]⟩)
+    · exact Or.inr (Or.inl ⟨rfl, rfl⟩)
+    · exact Or.inr (Or.inr ⟨g, hg, by rw [m2], by rw [m2]⟩)
+    · exact Or.inl ⟨rfl, rfl⟩
+
+/-- explicit form of the in-plane branch -/
+theorem segPoly_branch1 (tolP tolS : Rat) (s e : Vec) (poly : List Vec) (hb : (segPoly tolP tolS s e poly).branch = 1) :
+    dot (vsub s (centroid poly)) (normal poly) * dot (vsub s (centroid poly)) (normal poly) < tolP * tolP * nsq (normal poly) ∧
+    ¬ (tolP * tolP * nsq (normal poly) <
+      (dot (vsub e (centroid poly)) (normal poly) - dot (vsub s (centroid poly)) (normal poly)) *
+      (dot (vsub e (centroid poly)) (normal poly) - dot (vsub s (centroid poly)) (normal poly))) ∧
+    ((inPoly poly (normal poly) (projPlane (centroid poly) (normal poly) s) = true ∧
+        (segPoly tolP tolS s e poly).cp = projPlane (centroid poly) (normal poly) s) ∨
+     (inPoly poly (normal poly) (projPlane (centroid poly) (normal poly) e) = true ∧
+        (segPoly tolP tolS s e poly).cp = projPlane (centroid poly) (normal poly) e)) ∧
+    (segPoly tolP tolS s e poly).d2 = 0 := by
+  cases hx : crossPoint tolP s e poly with
+  | some x0 => rw [segPoly_some tolP tolS s e poly x0 hx] at hb; simp at hb
+  | none =>
+    unfold segPoly at hb ⊢
+    rw [hx] at hb ⊢
+    simp only [] at hb ⊢
+    split_ifs at hb ⊢ with hcond hst
+    · simp only [Bool.and_eq_true, Bool.or_eq_true, decide_eq_true_eq, Bool.not_eq_true', decide_eq_false_iff_not] at hcond
+      exact ⟨hcond.1.1, hcond.1.2, Or.inl ⟨hst, rfl⟩, rfl⟩
+    · simp only [Bool.and_eq_true, Bool.or_eq_true, decide_eq_true_eq, Bool.not_eq_true', decide_eq_false_iff_not] at hcond
+      rcases hcond.2 with h3 | h3
+      · exact absurd h3 hst
+      · exact ⟨hcond.1.1, hcond.1.2, Or.inr ⟨h3, rfl⟩, rfl⟩
+    · rw [segPolyGeneral_branch] at hb
+      simp at hb
+
 end PorepyVerif.C30
